@@ -511,6 +511,30 @@ func c19FirstUseStorm(run *mon.Run) {
 		agg, _ := crypto.AggregateBLSSignatures([]crypto.Signature{sig, sig2})
 		pool = append(pool, src{enc: pk.Encode(), ref: pk, sig: sig, pop: pop, other: sig2, partner: sk2.PublicKey(), aggSigTwo: agg})
 	}
+	// fresh hashers and fresh ECDSA keys per round too
+	kmacKey, kmacCust := mon.RandBytes(r, 32), []byte("first-use")
+	kmacWant := ref.KMAC128(kmacKey, msg, 64, kmacCust)
+	type ecSrc struct {
+		alg    crypto.SigningAlgorithm
+		pkEnc  []byte
+		sig    crypto.Signature
+		mkHash func() hash.Hasher
+	}
+	var ecPool []ecSrc
+	for i, a := range []crypto.SigningAlgorithm{crypto.ECDSAP256, crypto.ECDSASecp256k1} {
+		mk := []func() hash.Hasher{hash.NewSHA3_256, hash.NewSHA2_256}[i]
+		for j := 0; j < 3; j++ {
+			sk, err := crypto.GeneratePrivateKey(a, mon.RandBytes(r, 32))
+			if err != nil {
+				continue
+			}
+			sg, err := sk.Sign(msg, mk())
+			if err != nil {
+				continue
+			}
+			ecPool = append(ecPool, ecSrc{a, sk.PublicKey().Encode(), sg, mk})
+		}
+	}
 	kinds := []string{"decoded", "jacobian", "decoded-compressed", "jacobian-of-aggregate"}
 	var wrong atomic.Int64
 	var firstMsg atomic.Value
@@ -549,6 +573,14 @@ func c19FirstUseStorm(run *mon.Run) {
 			run.Inconclusive("first-use storm: cannot build a fresh key: " + err.Error())
 			return
 		}
+		xofR := crypto.NewExpandMsgXOFKMAC128("c19-first-use") // a hasher object nobody has used yet
+		kmacR, kerr := hash.NewKMAC_128(kmacKey, kmacCust, 64)
+		ec := ecPool[round%len(ecPool)]
+		ecPk, eerr := crypto.DecodePublicKey(ec.alg, ec.pkEnc)
+		if kerr != nil || eerr != nil {
+			run.Inconclusive(fmt.Sprintf("first-use storm: cannot build fresh objects: %v %v", kerr, eerr))
+			return
+		}
 		G := []int{2, 4, 8}[round%3]
 		var arrived atomic.Int32
 		var wg sync.WaitGroup
@@ -563,13 +595,18 @@ func c19FirstUseStorm(run *mon.Run) {
 				}
 				var ok, want bool
 				var err error
-				op := (g + round) % 5
+				op := (g + round) % 7
 				switch op {
 				case 0:
-					ok, err = pk.Verify(s.sig, msg, xof)
+					ok, err = pk.Verify(s.sig, msg, xofR)
+					want = true
+				case 5:
+					ok, want = bytes.Equal(kmacR.ComputeHash(msg), kmacWant), true
+				case 6:
+					ok, err = ecPk.Verify(ec.sig, msg, ec.mkHash())
 					want = true
 				case 1:
-					ok, err = pk.Verify(s.other, msg, xof)
+					ok, err = pk.Verify(s.other, msg, xofR)
 				case 2:
 					ok, err = crypto.BLSVerifyPOP(pk, s.pop)
 					want = true
